@@ -356,6 +356,10 @@ def classify(spec, hist, i, a_long, a_fresh, rerun=None, failed_reqs=()):
                         # a sub-module created next to a package attribute of the same name
                         return ('created-submodule-shadows-package-attribute%s-dist%d' % (star, len(p) - 1), True,
                                 {'path': [[x, k] for x, k in p], 'importers_not_modified_since': held})
+                    if p[-1][1] == 'attr_sub':
+                        # a sub-module that its user reaches only as an attribute of the imported package
+                        return ('created-submodule-reached-by-package-attribute-dist%d' % (len(p) - 1), True,
+                                {'path': [[x, k] for x, k in p], 'importers_not_modified_since': held})
                     return ('created-after-failed-lookup%s-dist%d' % (star, len(p) - 1), True,
                             {'path': [[x, k] for x, k in p], 'importers_not_modified_since': held})
         for p in paths:
@@ -462,6 +466,9 @@ def run_history(spec, hist, part, compare, key, seen_mechs, selfcheck=False):
                         if not pkg_created:
                             pkg_created = True
                             part.count('histories_with_a_package_creation')
+                    if kind == 'create' and any(e['kind'] == 'attr_sub' and e['to'] == op[1]
+                                                for mm in spec['modules'].values() for e in mm['edges']):
+                        part.count('submodules_created_that_are_reached_only_by_package_attribute')
                     if kind == 'create' and spec['modules'][op[1]].get('shadow'):
                         part.count('submodules_created_over_a_package_attribute')
                     if kind.endswith('-back'):
@@ -660,7 +667,7 @@ def dispatch(arg):
 
 # --------------------------------------------------------------------------------------
 
-CHAINS = ('S', 'R', 'X', 'P')
+CHAINS = ('S', 'R', 'X', 'P', 'A')
 
 
 def main(run):
@@ -669,7 +676,7 @@ def main(run):
     alphabets = {}
     maxlen = run.pick(4, 6)
     # budget: number of exhaustive histories the tier can afford (see evidence 'enumerated')
-    budget = run.pick(17000, 260000)
+    budget = run.pick(18500, 260000)
     complete = True
     used = 0
     spent = 0
@@ -732,6 +739,8 @@ def main(run):
                         'Project.get_module raises InjectedFault when w is looked up (after a was validated), on the long-lived and on the '
                         'fresh project alike; such a step is never judged, the following ones are (B = save w with a syntax error, G = save it '
                         'as bytes that are not UTF-8, P = repair: ordinary compared steps); '
+                        'A (attribute-only sub-module): m imports a; a does `import p` and uses p.t.K_t as base class (KA_a), instance attribute source '
+                        '(KB_a().helper) and plain read; p/t.py is absent at the start (Pt creates it); '
                         'P (package creation): directory p holds r (requested, relative imports only) and h but no __init__.py at the start (Pp creates it)',
         'alphabets (E=rewrite with new content+mtime, T=touch, P=create-or-rewrite, R=request; lower case in a history = mtime moved backward)': alphabets,
         'levels': enumerated,
@@ -750,7 +759,8 @@ def main(run):
              'module at import distance >= 1 from the requested file, and whose fresh-project answer mentions generated identifiers',
         require=('requests_compared', 'requests_nontrivial', 'answers_equal', 'fresh_vs_fresh_checks', 'histories_random',
                  'modifications_mtime_forward', 'modifications_mtime_backward',
-                 'submodules_created_over_a_package_attribute', 'histories_with_a_failing_request',
+                 'submodules_created_over_a_package_attribute', 'submodules_created_that_are_reached_only_by_package_attribute',
+                 'histories_with_a_failing_request',
                  'histories_with_a_package_creation', 'requests_answered_after_a_failing_request_and_a_later_modification',
                  'requests_on_a_file_inside_a_package_after_a_package_creation', 'both_raise_same_type',
                  'armed_requests', 'armed_requests_raised_on_long_lived_project', 'armed_requests_raised_on_both',
